@@ -35,6 +35,7 @@ impl Decodable for VaultMeta {
     ) -> Result<()> {
         let mut date_created: UtcDateTime = Default::default();
         date_created.decode(&mut *reader).await?;
+        self.date_created = date_created;
         self.description = reader.read_string().await?;
         Ok(())
     }
